@@ -411,6 +411,84 @@ func c14Images(r *core.Run) {
 			}
 		}
 	}
+	// shapes: rows that are transparent but for their last (or first) pixel, at odd and even widths;
+	// strips of more than 65 535 rows and of more than 65 535 columns
+	{
+		type shape struct {
+			w, h int
+			kind string // "last", "first", "ramp"
+		}
+		var shapes []shape
+		for _, w := range []int{1, 2, 3, 5, 7, 8, 9, 15, 16, 17, 33} {
+			shapes = append(shapes, shape{w, 6, "last"}, shape{w, 5, "first"})
+		}
+		shapes = append(shapes, shape{1, 65576, "ramp"}, shape{2, 65540, "ramp"}, shape{65576, 1, "ramp"}, shape{70001, 2, "ramp"})
+		var n int64
+		for si, s := range libSpaces {
+			for fi, fn := range []string{"LineariseImage", "EncodeImage"} {
+				for hi, sh := range shapes {
+					for pi, pair := range [][2]string{{"RGBA", "RGBA"}, {"NRGBA", "NRGBA"}, {"RGBA64", "RGBA64"}, {"RGBA", "RGBA64"}, {"NRGBA64", "RGBA"}, {"NRGBA", "NRGBA64"}} {
+						if sh.kind == "ramp" && (pi+hi+si+fi)%3 != 0 {
+							continue
+						}
+						rect := image.Rect(3, -2, 3+sh.w, -2+sh.h)
+						src, dst := newConcrete(pair[0], rect), newConcrete(pair[1], rect)
+						rng.Fill(pixOf(dst))
+						bpp := bytesPerPixel(src)
+						sp := pixOf(src)
+						setPx := func(x, y int, a uint8) {
+							o := (y*sh.w + x) * bpp
+							for k := 0; k < bpp; k++ {
+								sp[o+k] = a / 2
+							}
+							if bpp == 8 {
+								sp[o+6], sp[o+7] = a, a^0x5A
+							} else {
+								sp[o+3] = a
+							}
+						}
+						for y := 0; y < sh.h; y++ {
+							switch sh.kind {
+							case "last":
+								setPx(sh.w-1, y, uint8(200+y))
+							case "first":
+								setPx(0, y, uint8(100+y))
+							default:
+								for x := 0; x < sh.w; x++ {
+									setPx(x, y, uint8(1+(x+y)%255))
+								}
+							}
+						}
+						par := 1 + (hi+pi)%5
+						if fn == "LineariseImage" {
+							s.LineariseImage(dst, src, par)
+						} else {
+							s.EncodeImage(dst, src, par)
+						}
+						n++
+						bad := false
+						for y := rect.Min.Y; y < rect.Max.Y && !bad; y++ {
+							for x := rect.Min.X; x < rect.Max.X; x++ {
+								_, _, _, ain := src.At(x, y).RGBA()
+								_, _, _, aout := dst.At(x, y).RGBA()
+								if bytesPerPixel(dst) == 4 || bpp == 4 {
+									ain, aout = ain>>8, aout>>8
+								}
+								if ain != aout {
+									r.Violate("image", fmt.Sprintf("%s/%s/shape-%s", s.Name, fn, sh.kind), fmt.Sprintf("%s %s of a %d x %d %s image (%s pattern) into %s with %d workers: pixel (%d,%d) alpha %d became %d", s.Name, fn, sh.w, sh.h, pair[0], sh.kind, pair[1], par, x, y, ain, aout), map[string]any{"space": s.Name, "fn": fn, "w": sh.w, "h": sh.h, "pattern": sh.kind, "src": pair[0], "dst": pair[1], "parallelism": par})
+									bad = true
+									break
+								}
+							}
+						}
+					}
+				}
+			}
+		}
+		r.AddEvals(n)
+		r.NTCount(n)
+		r.Obs("shape_images", n)
+	}
 	// a Paletted source converted, its palette's alphas edited in place, converted again: the alpha
 	// written is the palette's alpha as it is at that moment
 	for k := 0; k < 40; k++ {
@@ -628,6 +706,9 @@ func runC14(r *core.Run) {
 		c14Thorough(r)
 	}
 	if r.Variant == "" {
+		// the whole workload once more in the GOARCH=386 build of this monitor (see ./check)
+		r.RunVariantChild("arch386@16", 30*time.Minute, false)
+		r.Obs("arch386_child", "run")
 		for _, v := range append([]string{"encfirst+rev@3", "decfirst@1", "warm@4"}, burstVariants...) {
 			r.RunVariantChild(v, 10*time.Minute, false)
 		}
